@@ -13,7 +13,7 @@ Not decided: calc_huffman_codes agreeing with calculate_huffman_code_tree (value
 import re
 from .. import flow, proto, alpha
 from ..part import Part, Unsupported, single
-from ..facts import op_place, callee_def
+from ..facts import op_place, callee_def, op_const, const_int
 from ..common import strip_generics
 from .c03 import SPEC, _var_def
 
@@ -387,6 +387,175 @@ def w5(F, rep):
     rep.add("W5", "replayed:eof_padding", ok, "%s:%s" % (dm.file, dm.line), "final padding bits are replayed from the correction stream: %s" % (flow.describe(dm, fl[0][1]["args"][1])[:80] if fl else None))
 
 
+# ---- W6: padding replay -----------------------------------------------------------------------------------------------
+def _pad_eval(b, op, used, depth=0):
+    """Evaluate an operand of BitWriter::pad as a function of used = bits_in & 7.  Returns an int, ("fill",) for the fill
+    argument (through casts), ("fillmask", m) for fill & m, ("bits_in",) for the field, or None."""
+    if depth > 30:
+        return None
+    k = op_const(op)
+    if k is not None and isinstance(k, dict) and "ty" in k:
+        return const_int(k)
+    p = op_place(op)
+    if p is None:
+        return None
+    pr = p["p"]
+    if pr and not (len(pr) == 1 and isinstance(pr[0], dict) and pr[0].get("f") == 0 and b.local_ty(p["l"]).startswith("(")):
+        # (*self).bits_in
+        if p["l"] == 1 and any(isinstance(e, dict) and e.get("n") == "bits_in" for e in pr):
+            return ("bits_in",)
+        return None
+    if p["l"] == 2 and not pr:
+        return ("fill",)
+    ds = b.defs(p["l"])
+    if len(ds) == 1 and ds[0][2] == "call" and re.search(r"convert::(From::from|Into::into)$", strip_generics(callee_def(ds[0][3]))) \
+            and re.match(r"^[ui](8|16|32|64|size)$", b.local_ty(p["l"])):
+        return _pad_eval(b, ds[0][3]["args"][0], used, depth + 1)       # lossless integer widening
+    if len(ds) != 1 or ds[0][2] != "assign":
+        return None
+    r = ds[0][3]
+    if r["k"] == "use":
+        return _pad_eval(b, r["op"], used, depth + 1)
+    if r["k"] == "cast" and r.get("ck") == "IntToInt":
+        return _pad_eval(b, r["op"], used, depth + 1)
+    if r["k"] == "binop":
+        o = r["op"].replace("WithOverflow", "").replace("Unchecked", "")
+        x, y = _pad_eval(b, r["l"], used, depth + 1), _pad_eval(b, r["r"], used, depth + 1)
+        if o == "BitAnd":
+            for s, m in ((x, y), (y, x)):
+                if s == ("bits_in",) and m == 7:
+                    return used
+                if s == ("fill",) and isinstance(m, int):
+                    return ("fillmask", m)
+                if isinstance(s, tuple) and s[0] == "fillmask" and isinstance(m, int):
+                    return ("fillmask", s[1] & m)
+        if isinstance(x, int) and isinstance(y, int):
+            try:
+                v = {"Add": x + y, "Sub": x - y, "Mul": x * y, "Shl": x << y if 0 <= y < 64 else None, "Shr": x >> y if 0 <= y < 64 else None,
+                     "BitAnd": x & y, "BitOr": x | y, "BitXor": x ^ y, "Eq": int(x == y), "Ne": int(x != y), "Lt": int(x < y),
+                     "Le": int(x <= y), "Gt": int(x > y), "Ge": int(x >= y), "Rem": x % y if y else None, "Div": x // y if y else None}.get(o)
+            except Exception:
+                v = None
+            return v
+        return None
+    return None
+
+
+def w6(F, rep):
+    """The parser captures the bits between the last code and the byte boundary as one value (bit i = i-th padding bit);
+    BitWriter::pad must put exactly those bits back: n = (8 - bits_in % 8) % 8 bits, bit i of the argument at position i.
+    Two shapes are understood exactly — the bit-serial loop and a single masked write — anything else fails closed."""
+    name = P + "bit_writer::BitWriter::pad"
+    b = F.body(name)
+    where = "%s:%s" % (b.file, b.line)
+    ws = [(bb, t) for bb, t in b.calls() if strip_generics(callee_def(t)).endswith("BitWriter::write")]
+    other = [strip_generics(callee_def(t)) for bb, t in b.calls() if not strip_generics(callee_def(t)).endswith("BitWriter::write")
+             and not re.search(r"convert::(From::from|Into::into)$", strip_generics(callee_def(t)))]
+    if len(ws) != 1 or other:
+        rep.add("W6", "pad-replays-captured-bits", False, where, "UNRECOGNISED-IDIOM: expected exactly one BitWriter::write call, found %d (+%s)" % (len(ws), other[:2]))
+        return
+    wb, wt = ws[0]
+    in_loop = any(wb in b.reachable_from(s) for s in b.succ(wb))
+    if in_loop:
+        # ---- bit-serial loop -------------------------------------------------------------------
+        why = []
+        if flow.const_eval(b, wt["args"][2]) != 1:
+            why.append("each iteration must write exactly one bit")
+        # loop guard: (bits_in & 7) != 0, leaving the loop on 0
+        guard = False
+        for sb in sorted(b.normal_blocks()):
+            t = b.term(sb)
+            if t["k"] == "switch" and b.dominates(sb, wb) and re.match(r"^Ne\(BitAnd\(arg<&mut .*BitWriter>\.bits_in, K7\), K0\)$", flow.describe(b, t["d"])):
+                zero = dict((v, x) for v, x in t["targets"]).get(0)
+                if zero is not None and wb not in b.reachable_from(zero) and b.edge_dominates(sb, t["otherwise"], wb):
+                    guard = True
+        if not guard:
+            why.append("loop is not guarded by (bits_in & 7) != 0")
+        # the bit written: 1 exactly when fill & mask != 0, with mask = 1, 2, 4, ... ; or fill & 1 with fill >>= 1
+        vp = op_place(wt["args"][1])
+        vdefs = b.defs(vp["l"]) if vp is not None and not vp["p"] else []
+        def _dconst(d):
+            if d[2] == "assign" and d[3]["k"] == "use" and op_const(d[3]["op"]):
+                return const_int(op_const(d[3]["op"]))
+            return None
+        consts = [_dconst(d) for d in vdefs]
+        consts = sorted(consts) if all(c is not None for c in consts) else []
+        walker = None
+        if consts == [0, 1] and len(vdefs) == 2:
+            one_bb = [d[0] for d in vdefs if const_int(op_const(d[3]["op"])) == 1][0]
+            sel = None
+            for sb in sorted(b.normal_blocks()):
+                t = b.term(sb)
+                if t["k"] != "switch" or not b.dominates(sb, wb):
+                    continue
+                m = re.match(r"^(Ne|Eq)\(BitAnd\((.*)\), K0\)$", flow.describe(b, t["d"]))
+                if not m:
+                    continue
+                a = m.group(2)
+                zero = dict((v, x) for v, x in t["targets"]).get(0)
+                nz_edge = t["otherwise"] if m.group(1) == "Ne" else zero
+                if nz_edge == one_bb or b.edge_dominates(sb, nz_edge, one_bb):
+                    sel = a
+            if sel and re.match(r"^arg<u8>(#\d+)?, var\((\w+)\)$|^var\((\w+)\), arg<u8>(#\d+)?$", sel):
+                walker = re.search(r"var\((\w+)\)", sel).group(1)
+            else:
+                why.append("the written bit is not selected by `fill & mask != 0` (%s)" % sel)
+        else:
+            why.append("the written value is not a 0/1 selection")
+        if walker:
+            # mask local: starts at 1, doubled once per iteration after the write
+            ml = [l for l in range(1, len(b.locals)) if b.locals[l].get("name") == walker]
+            okm = False
+            if len(ml) == 1:
+                ds = b.defs(ml[0])
+                init = [d for d in ds if d[2] == "assign" and d[3]["k"] == "use" and op_const(d[3]["op"]) is not None and const_int(op_const(d[3]["op"])) == 1 and not (d[0] in b.reachable_from(wb) and wb in b.reachable_from(d[0]))]
+                step = [d for d in ds if d[2] == "assign" and d[3]["k"] == "binop" and d[0] in b.reachable_from(wb) and wb in b.reachable_from(d[0])]
+                def doubles(d):
+                    o = d[3]["op"].replace("WithOverflow", "").replace("Unchecked", "")
+                    k = flow.const_eval(b, d[3]["r"])
+                    lp = op_place(d[3]["l"])
+                    return lp is not None and lp["l"] == ml[0] and ((o == "Shl" and k == 1) or (o == "Mul" and k == 2))
+                okm = len(init) == 1 and len(step) == 1 and len(ds) == 2 and doubles(step[0])
+            if not okm:
+                why.append("the mask does not start at 1 and double once per written bit")
+        rep.add("W6", "pad-replays-captured-bits", not why, where,
+                "bit-serial loop: one bit per iteration while (bits_in & 7) != 0, bit i selected by mask 1<<i" if not why else "bit-serial loop, but " + "; ".join(why))
+        return
+    # ---- single masked write --------------------------------------------------------------------------
+    bad = []
+    for used in range(0, 8):
+        # is the write reached for this phase?
+        reached = True
+        for sb in sorted(b.normal_blocks()):
+            t = b.term(sb)
+            if t["k"] != "switch" or not b.dominates(sb, wb) or sb == wb:
+                continue
+            dv = _pad_eval(b, t["d"], used)
+            if not isinstance(dv, int):
+                bad.append("UNRECOGNISED-IDIOM: a branch on the way to the write does not depend on bits_in & 7 alone")
+                reached = None
+                break
+            tgt = dict((v, x) for v, x in t["targets"]).get(dv, t["otherwise"])
+            if not (tgt == wb or wb in b.reachable_from(tgt)):
+                reached = False
+        if reached is None:
+            break
+        n = (8 - used) % 8
+        if not reached:
+            if n != 0:
+                bad.append("bits_in %% 8 = %d: nothing is written, %d padding bits are due" % (used, n))
+            continue
+        w = _pad_eval(b, wt["args"][2], used)
+        v = _pad_eval(b, wt["args"][1], used)
+        if w != n:
+            bad.append("bits_in %% 8 = %d: writes %s bits, %d are due" % (used, w, n))
+        elif n and not (isinstance(v, tuple) and v[0] == "fillmask" and (v[1] & 0xff) == (1 << n) - 1):
+            bad.append("bits_in %% 8 = %d: value is %s, expected fill & %#x" % (used, ("fill & %#x" % v[1]) if isinstance(v, tuple) and v[0] == "fillmask" else ("not a mask of the captured bits" if v is None or v == ("fill",) else v), (1 << n) - 1))
+    rep.add("W6", "pad-replays-captured-bits", not bad, where,
+            "single masked write: for every phase 1..7 writes 8-phase bits of fill & (2^n - 1), nothing when aligned" if not bad else "; ".join(bad[:3]))
+
+
+
 def run(ctx, rep):
     F = ctx.lib
     rep.explanation = ("The serialiser is checked against the parser and the RFC without going through the predictor: exact piecewise summaries of the "
@@ -401,3 +570,4 @@ def run(ctx, rep):
     w3(F, rep)
     w4(F, rep)
     w5(F, rep)
+    w6(F, rep)
